@@ -573,7 +573,8 @@ def crawl(w, p, k: Consts, query="q", limit=60):
                     c = classify(p, r, k)
                     chain.append({"line": rq3["line"], "cls": c["cls"], "loc": ""})
             events.append({"ev": "follow", "base": base, "i": i, "q": q, "req": rq, "chain": chain,
-                           "cls": c["cls"], "obj": c["obj"], "lexed": c["entries"] is not None or c["obj"] != "menu"})
+                           "cls": c["cls"], "obj": c["obj"], "by": c["by"][0],
+                           "lexed": c["entries"] is not None or c["obj"] != "menu"})
             concrete.append({"rq": rq, "out": r.out[:400].decode("latin-1"), "log": r.log[-2:], "escaped": r.escaped})
             if c["cls"] == "ok" and c["obj"] == "menu" and c["entries"] is not None and not q:
                 ref = ref_of(p, t, base)
